@@ -170,6 +170,33 @@ def nodeOver (rec : Rec) (s : Shape) (path : List PathEntry) (fv : FV) (ns : Sha
 def propertyOver (rec : Rec) (path : List PathEntry) (fv : FV) (ps : Shape) : Out :=
   foldOut fv fun (_, vs) => foldOut vs fun v => rec ps v path
 
+/-- does value node `v` count for the qualified value shape `other`: it conforms to it and to none of the siblings -/
+def qualFlag (rec : Rec) (path : List PathEntry) (other : Shape) (siblings : List Shape) (v : Term) : Except Failure Bool :=
+  match rec other v path with
+  | .error e => .error e
+  | .ok (conf, _) =>
+    if !conf then .ok false else
+    (match evalMembers rec path siblings v with
+      | .error e => .error e
+      | .ok cs => .ok (!cs.any id))
+
+/-- the counting step of sh:qualifiedValueShape for one value shape: per focus node the number of value nodes
+    that conform to `other` and to none of the sibling shapes, against the two bounds -/
+def qualifiedOver (rec : Rec) (s : Shape) (k : CKind) (path : List PathEntry) (fv : FV) (other : Shape)
+    (siblings : List Shape) (minC maxC : Option Int) : Out :=
+  foldOut fv fun (f, vs) =>
+    match mapE (qualFlag rec path other siblings) vs with
+    | .error e => .error e
+    | .ok flags =>
+      let n : Int := (flags.filter id).length
+      let r1 := match maxC with
+        | some m => if n > m then [mkResult s k f none (component := some shQualifiedMaxCountCC)] else []
+        | none => []
+      let r2 := match minC with
+        | some m => if n < m then [mkResult s k f none (component := some shQualifiedMinCountCC)] else []
+        | none => []
+      ofResults (r1 ++ r2)
+
 def resolveMembers (c : Env) (nodes : List Term) : Except Failure (List Shape) :=
   mapE (fun n => match lookupShape c.shapes n with
     | some s => .ok s
@@ -378,24 +405,7 @@ def evalConstraint (c : Env) (rec : Rec) (s : Shape) (k : CKind) (fv : FV) (path
           else []
         let siblings := siblingNodes.filterMap (lookupShape c.shapes)
         if siblings.length ≠ siblingNodes.length then .error (.raw "AttributeError") else
-        foldOut fv fun (f, vs) =>
-          match mapE (fun v => match rec other v path with
-              | .error e => .error e
-              | .ok (conf, _) =>
-                if !conf then .ok false else
-                (match evalMembers rec path siblings v with
-                  | .error e => .error e
-                  | .ok cs => .ok (!cs.any id))) vs with
-          | .error e => .error e
-          | .ok flags =>
-            let n : Int := (flags.filter id).length
-            let r1 := match maxC with
-              | some m => if n > m then [mkResult s k f none (component := some shQualifiedMaxCountCC)] else []
-              | none => []
-            let r2 := match minC with
-              | some m => if n < m then [mkResult s k f none (component := some shQualifiedMinCountCC)] else []
-              | none => []
-            ofResults (r1 ++ r2)
+        qualifiedOver rec s k path fv other siblings minC maxC
   | .sparql =>
     foldOut (dedup (objs shSparql)) fun cn =>
       match dedup (sg.objects cn shSelect) with
